@@ -207,10 +207,16 @@ DROPPING_ADAPTERS = {"filter", "filter_map", "skip", "take", "take_while", "skip
                      "first", "pop", "remove", "swap_remove", "drain", "dedup_by", "dedup_by_key", "unique_by", "min", "max", "min_by", "max_by", "position"}
 
 
+_SORTS = {"sorted_by", "sort_by", "sorted_by_key", "sort_by_key", "sort_unstable_by", "sort_unstable_by_key", "sorted_unstable_by", "sorted_unstable_by_key",
+          "sort_by_cached_key", "sorted_by_cached_key"}
+
+
 def _norm_sig(t):
     """Closure parameter numbers and value-transparent calls (`.clone()`, `.to_owned()`, `.as_ref()`, `.iter()` vs `.into_iter()`) do not distinguish adapters."""
     t = re.sub(r"\bc\d+(\.\d+)?\b", "c", t)
     t = re.sub(r"\.(clone|to_owned|as_ref|as_deref|borrow|cloned|copied)\(\)", "", t)
+    # nor does a borrow (`.eq(&a.clone().kind.unwrap())` = `.eq(a.kind.as_ref().unwrap())`); `&&` is the conjunction and stays
+    t = re.sub(r"(?<!&)&(?!&)(mut\b)?", "", t)
     # a local of the enclosing fn, whether it was bound by `let x = ..` (rendered `v?`) or by a pattern (`b0`, `b1`), is just "a local"
     t = re.sub(r"\bb\d+(_\d+)?\b", "v", t).replace("v?", "v")
     # block braces and a `let` that only names a sub-expression do not distinguish adapters either
@@ -231,6 +237,17 @@ def droppers_inventory(facts, rep, rid, fn_suffixes, audited, what):
                 continue
             cal = fb.callee(x) or ""
             if not cal.startswith(("std::iter::", "core::iter::", "itertools::", "std::vec::", "alloc::vec::", "core::slice::", "rayon::", "std::collections::VecDeque")):
+                continue
+            # an adapter inside the comparator / key closure of a sort works on the two items being compared, not on the answer: it can change the order
+            # (the ordering rules look at that), never which elements there are
+            cf = ctx(f)
+            in_cmp, child = False, x
+            for p in cf.parents(x):
+                if p.get("k") in ("mcall", "call") and child.get("k") == "closure" and (p.get("name") or fb.last_seg(fb.callee(p) or "")) in _SORTS and any(a is child for a in p.get("args", [])):
+                    in_cmp = True
+                    break
+                child = p
+            if in_cmp:
                 continue
             # locals bound inside the adapter's own closure are read through (`|p| { let id = p.first_id(); f(id) }` = `|p| f(p.first_id())`);
             # locals of the enclosing fn stay opaque
@@ -454,6 +471,41 @@ def through_lets(c, e, depth=0):
                 continue
         break
     return e
+
+
+def value_leaves(c, e, depth=0):
+    """The expressions a value may come from, whatever shape delivers it: the tail of a block, either branch of an `if`, every arm of a `match`,
+    the initialiser of a local (`let v = ..;`), a component of a tuple that is destructured (`let (a, b) = match .. { .. => (x, y), .. }`).
+    -> [leaf expression nodes] (each still sits in the fn's tree, so its enclosing conditions can be asked for with c.parents / facts_at)."""
+    if e is None or depth > 12:
+        return [e] if e is not None else []
+    k = e.get("k")
+    if k == "block" and e.get("e") is not None:
+        return value_leaves(c, e["e"], depth + 1)
+    if k == "if" and e.get("e") is not None:
+        return value_leaves(c, e["t"], depth + 1) + value_leaves(c, e["e"], depth + 1)
+    if k == "match" and e.get("src", "Normal") == "Normal":
+        out = []
+        for arm in e["arms"]:
+            out += value_leaves(c, arm["body"], depth + 1)
+        return out
+    if k == "path" and e.get("res") == "local":
+        b = c.binds.get(e["id"])
+        if b and b[0] == "expr" and len(b) > 2 and isinstance(b[2], dict) and b[1] is not None:
+            pat = b[2]
+            if pat.get("k") == "p_bind" and "sub" not in pat and pat.get("id") == e["id"]:
+                return value_leaves(c, b[1], depth + 1)
+            if pat.get("k") == "p_tuple":
+                idx = [i for i, qp in enumerate(pat.get("pats", [])) if qp.get("k") == "p_bind" and qp.get("id") == e["id"] and "sub" not in qp]
+                if idx:
+                    out = []
+                    for leaf in value_leaves(c, b[1], depth + 1):
+                        if leaf.get("k") == "tup" and len(leaf.get("es", [])) == len(pat["pats"]):
+                            out += value_leaves(c, leaf["es"][idx[0]], depth + 1)
+                        else:
+                            return [e]
+                    return out
+    return [e]
 
 
 _RESULT_FORWARDERS = {"try_for_each", "try_fold", "map", "and_then", "map_err", "or_else", "collect", "try_collect", "sum", "inspect_err", "context", "with_context"}
